@@ -26,6 +26,8 @@ type SessCfg struct {
 	KeyB    int    `json:"kb"`
 	Starter int    `json:"st,omitempty"`
 	NoErrH  bool   `json:"neh,omitempty"`
+	SkA     int    `json:"ska,omitempty"` // this many of A's first D-H public values are a byte shorter than usual
+	SkB     int    `json:"skb,omitempty"`
 }
 
 func (c SessCfg) pol() int {
@@ -40,8 +42,8 @@ func (c SessCfg) pol() int {
 
 func (c SessCfg) world() *sim.World {
 	return sim.NewWorld(
-		sim.PartyOpts{Seed: c.SeedA, Pol: c.pol(), KeyI: c.KeyA, Frag: c.FragA, NoErrH: c.NoErrH},
-		sim.PartyOpts{Seed: c.SeedB, Pol: c.pol(), KeyI: c.KeyB, Frag: c.FragB, NoErrH: c.NoErrH})
+		sim.PartyOpts{Seed: c.SeedA, Pol: c.pol(), KeyI: c.KeyA, Frag: c.FragA, NoErrH: c.NoErrH, ShortKeys: c.SkA},
+		sim.PartyOpts{Seed: c.SeedB, Pol: c.pol(), KeyI: c.KeyB, Frag: c.FragB, NoErrH: c.NoErrH, ShortKeys: c.SkB, ShortFrom: 3})
 }
 
 func minFrag(v int) int {
@@ -84,6 +86,9 @@ func genSessCfg(t *rapid.T) SessCfg {
 	c.FragA = genFrag(t, v, "fragA")
 	c.FragB = genFrag(t, v, "fragB")
 	c.Starter = rapid.IntRange(0, 1).Draw(t, "starter")
+	if rapid.IntRange(0, 3).Draw(t, "shortkeys") == 0 {
+		c.SkA, c.SkB = rapid.IntRange(0, 3).Draw(t, "ska"), rapid.IntRange(0, 3).Draw(t, "skb")
+	}
 	return c
 }
 
@@ -204,6 +209,10 @@ func runC04(sc *C04Script) *sim.Outcome {
 				who = 1 - who
 			}
 			s.afterReceive(w.Deliver(who, 0))
+		case "sk":
+			// the next D-H key pair this party generates has a public value that is a byte shorter than usual
+			w.P[who].R.Force40 = append(w.P[who].R.Force40, sim.ShortExps[(s.nText+op.L)%len(sim.ShortExps)])
+			o.Class("short-public-value-armed")
 		case "age":
 			w.AgeClock(who, 2*time.Minute)
 			o.Class("aged")
@@ -297,7 +306,7 @@ func genC04Ops(t *rapid.T, maxOps int, maxLen int) []C04Op {
 	n := rapid.IntRange(1, maxOps).Draw(t, "nops")
 	ops := make([]C04Op, 0, n)
 	for i := 0; i < n; i++ {
-		k := rapid.SampledFrom([]string{"s", "s", "s", "s", "s", "s", "d", "d", "d", "d", "d", "d", "d", "d", "age", "smp", "ans", "ans", "xk"}).Draw(t, "k")
+		k := rapid.SampledFrom([]string{"s", "s", "s", "s", "s", "s", "d", "d", "d", "d", "d", "d", "d", "d", "age", "smp", "ans", "ans", "xk", "sk"}).Draw(t, "k")
 		op := C04Op{K: k, W: rapid.IntRange(0, 1).Draw(t, "w")}
 		if k == "s" {
 			cls := rapid.IntRange(0, len(lenClasses)-1).Draw(t, "lc")
